@@ -126,7 +126,7 @@ def gen_struct_history(rng, i):
         elif r < 0.6:
             qs = [fresh() for _ in range(rng.randint(0, 14))]; lines.append("AL %d %s" % (len(qs), " ".join("%d %d" % q for q in qs))); present += qs
         elif r < 0.93:
-            if rng.random() < 0.85: q = rng.choice(present); present.remove(q); used.discard(q)
+            if rng.random() < 0.85: q = rng.choice(present); present.remove(q)       # a removed value is not added again before a clear(): the model's removal cache holds values, the library's addresses
             else: q = (rng.randint(13, 40), rng.randint(13, 40))
             lines.append("R %d %d" % q)
         else: lines.append("C"); present = []; used = set()
@@ -340,7 +340,8 @@ def main():
         c.violation("implementation violates C10: " + bad, "# C10 replay: bin/check C10 --replay <this file>\n" + "\n".join(h) + "\n")
     elif first_diff:
         h, (j, a, b) = first_diff
-        c.broken.append("correspondence C10 (nearest-neighbour answers vs NNModel) differs at op %d '%s': implementation '%s' model '%s'" % (j, h[j], a[:200], b[:200]))
+        open(os.path.join(c.outdir, "disagreement_history.txt"), "w").write("\n".join(h) + "\n")
+        c.broken.append("correspondence C10 (nearest-neighbour answers vs NNModel / structure vs GnatFullModel) differs at op %d '%s': implementation '%s' model '%s' (history: %s)" % (j, h[j], a[:200], b[:200], os.path.join(c.outdir, "disagreement_history.txt")))
     c.finish()
 
 
